@@ -12,7 +12,7 @@ import (
 func init() { register("C05", true, runC05) }
 
 func runC05(c *Check) {
-	c.Explanation = "Decides the frame and bookkeeping clauses of C05 for every profile and trimming configuration: none of the in-place trimming steps reachable from newTrimmedGraph (TrimTree, TrimLowFrequencyTags/Edges, RemoveRedundantEdges, SortNodes, SelectTop*, Discard*) can write Node.Flat/FlatDiv/Cum/CumDiv, Edge.Weight/WeightDiv, any Tag field or NodeInfo; each step writes only the fields it is documented to change and edge maps are only shrunk except in TrimTree's rewiring (R1); every edge that is re-parented is marked residual in the same step (R2); the 'accounting for' figure passed to the legend is graphTotal of the same graph whose nodes are printed, and graphTotal is the plain sum of FlatValue over g.Nodes (R3); every insertion into / removal from x.Out[y] is paired with y.In[x] in the same function except for the node being deleted in TrimTree (R4); the kept-set is consulted only when creating nodes, never when accumulating weights (R5). Also: the residual flag is a constant on every path of the frame loop (R6) and the Residual/Inline marks of an existing edge only move one way (R7). Also: a node whose |cum| equals the cutoff is kept (R8); TrimTree detaches every child of a removed node (R9); the kept set reaches the graph construction also when it is empty (R10). Not decided: which entries are removed (cut-off arithmetic, top-N selection), equality of rebuilt and untrimmed numbers beyond R5."
+	c.Explanation = "Decides the frame and bookkeeping clauses of C05 for every profile and trimming configuration: none of the in-place trimming steps reachable from newTrimmedGraph (TrimTree, TrimLowFrequencyTags/Edges, RemoveRedundantEdges, SortNodes, SelectTop*, Discard*) can write Node.Flat/FlatDiv/Cum/CumDiv, Edge.Weight/WeightDiv, any Tag field or NodeInfo; each step writes only the fields it is documented to change and edge maps are only shrunk except in TrimTree's rewiring (R1); every edge that is re-parented is marked residual in the same step (R2); the 'accounting for' figure passed to the legend is graphTotal of the same graph whose nodes are printed, and graphTotal is the plain sum of FlatValue over g.Nodes (R3); every insertion into / removal from x.Out[y] is paired with y.In[x] in the same function except for the node being deleted in TrimTree (R4); the kept-set is consulted only when creating nodes, never when accumulating weights (R5). Also: the residual flag is a constant on every path of the frame loop (R6) and the Residual/Inline marks of an existing edge only move one way (R7). Also: a node whose |cum| equals the cutoff is kept (R8); TrimTree detaches every child of a removed node (R9); the kept set reaches the graph construction also when it is empty (R10). Round-I additions: flat weight is added only under a test of the residual flag; the share printed in the legend is never merged with another value; cutoffs computed from NodeFraction/EdgeFraction are used through an absolute value only. Not decided: which entries are removed (cut-off arithmetic, top-N selection), equality of rebuilt and untrimmed numbers beyond R5."
 	p := c.P
 	m := newModAnalyzer(p)
 	tracked := p.structsOf("internal/graph", "Graph", "Node", "Edge", "Tag", "NodeInfo")
